@@ -75,6 +75,10 @@ def run(c):
                       "sync": False, "ucas": False, "_refused": "idmap"})
     cases.append({"id": len(cases), "ns": ["user"], "gidmap_setgroups": False, "cred": {"uid": 0, "gid": 0, "groups": [5], "nosetgroups": False},
                   "dropcaps": False, "nnp": False, "seccomp": False, "ptrace": False, "stop": False, "sync": False, "ucas": False, "_refused": "setgroups"})
+    # the launcher lacks CAP_SETPCAP: the secure bits cannot be locked, so capabilities could come back at exec; the launch must be refused
+    for ucas in (False, True):
+        cases.append({"id": len(cases), "ns": [], "nosetpcap": True, "dropcaps": True, "nnp": False, "seccomp": False, "ptrace": False, "stop": False,
+                      "sync": ucas, "ucas": ucas, "_refused": "securebits"})
     obs = c.run_harness(exe, [{k: v for k, v in x.items() if not k.startswith("_")} for x in cases], env=env, timeout=1500)
     cwd0 = obs[0]["own_cwd"]
     un = os.uname()
@@ -82,6 +86,8 @@ def run(c):
     for x, o in zip(cases, obs):
         canon = lambda what, **kw: dict({"kind": "secstate", "what": what, "options": sorted(k for k in NINE[:-1] + ["userns"] if x.get(k) or (k == "userns" and "user" in x["ns"]) or (k == "cred" and "cred" in x))}, **kw)
         rep = {"configuration": {k: v for k, v in x.items() if not k.startswith("_")}, "observed": {k: v for k, v in o.items() if k not in ("own_ns", "own_cwd")}}
+        if "harness_err" in o:
+            raise RuntimeError(o["harness_err"])
         if x.get("_refused"):
             c.count(json.dumps(x), nontrivial=True, klass="refused:" + x["_refused"])
             if "err" not in o or o.get("state") is not None:
